@@ -40,7 +40,7 @@ class Prop(common.PropertyCheck):
         res = case['res']
         spec = samples.spec_rich(r, N=12, D=3, datatype=case.get('dt', 'I'), log_channels=[1, 2], res=[res, res, 1024])
         spec['widths'] = [32, 32, 32]
-        spec['pne'] = {'1': '0,0', '2': r.choice(['4,1', '4,0', '3,1', '4.5,1']), '3': '4,1'}
+        spec['pne'] = {'1': '0,0', '2': r.choice(['4,1', '4,0', '3,1', '4.5,1', '6,0.01', '7,0.001', '5,0.3']), '3': '4,1'}
         d, _ = samples.load(spec, name='c19.fcs')
         if case.get('tinyneg') and case.get('dt') == 'F':
             # negative events only slightly below zero (well inside the linear region the default W would give)
@@ -48,7 +48,7 @@ class Prop(common.PropertyCheck):
         if case['units'] in ('rfi', 'mef'):
             d = FlowCal.transform.to_rfi(d)
         if case['units'] == 'mef':
-            d = FlowCal.transform.to_mef(d, [1], [lambda x: np.sign(x) * math.exp(2.0) * np.abs(x) ** 1.05], [1])
+            d = FlowCal.transform.to_mef(d, [1], [(lambda x: np.sign(x) * math.exp(2.0) * np.abs(x) ** 1.05) if case['seed'] % 3 else (lambda x: 0.5 * np.sign(x) * np.abs(x) ** 1.5)], [1])
         return d
 
     def run_impl(self, case):
@@ -114,6 +114,16 @@ class Prop(common.PropertyCheck):
                 tms.append(None)
         out['per'] = per
         out['tmwp'] = tms
+        # a second query on the SAME object with other override values must equal the answer of a fresh object
+        if kw and scale == 'logicle':
+            kw2 = {k: (v * 2 if k == 'T' else v + 1.0 if k == 'M' else v + 0.3) for k, v in kw.items()}
+            try:
+                again = d.hist_bins(ch, nb, sc, **kw2)
+                fresh = self.sample(case).hist_bins(ch, nb, sc, **kw2)
+                ea, ef = ([again], [fresh]) if scalar else (list(again), list(fresh))
+                out['history_ok'] = all(np.array_equal(np.asarray(x, dtype=float), np.asarray(y, dtype=float)) for x, y in zip(ea, ef))
+            except Exception as ex:
+                out['history_ok'] = 'err:' + type(ex).__name__
         # data values of the channel (for "every reportable value in exactly one bin")
         return out
 
@@ -125,6 +135,8 @@ class Prop(common.PropertyCheck):
             return None if impl.get('err') == 'ValueError' else 'unknown scale not refused: %s' % impl.get('err', 'accepted')
         if 'err' in impl:
             return 'hist_bins raised %s for %s' % (impl['err'], case)
+        if impl.get('history_ok') not in (None, True):
+            return 'a second hist_bins query on the same object with other %s values differs from the same query on a fresh object (%s)' % (case['over'], impl['history_ok'])
         if impl['range_after'] != impl['ranges']:
             return 'hist_bins changed the stored range %s -> %s' % (impl['ranges'], impl['range_after'])
         for i, eb in enumerate(impl['edges']):
